@@ -62,7 +62,12 @@ def parse_output(text: str, select_t: str) -> list:
     return entries
 
 
-def tlc_output_verdicts(universes: list, records: list, ctx, tag: str) -> dict:
+def tlc_output_verdicts(universes: list, records: list, ctx, tag: str, batch: int = 5000) -> dict:
+    if len(records) > batch:
+        out = {}
+        for i in range(0, len(records), batch):
+            out.update(tlc_output_verdicts(universes, records[i:i + batch], ctx, f"{tag}-{i // batch}", batch))
+        return out
     root = tlc.scratch_root()
     fu, fr = root / f"ouniv-{tag}.ndjson", root / f"outputs-{tag}.ndjson"
     fu.write_text("".join(json.dumps({"notes": u}) + "\n" for u in universes))
